@@ -444,6 +444,19 @@ def e2_op_strategies(nparts, ngroups, profile):
         'cellev': st.tuples(st.just('cellev'), st.integers(0, 3),
                             st.booleans()).map(list),
         'cellrm': st.tuples(st.just('cellrm'), st.integers(0, 3)).map(list),
+        # the definition of a rack is deleted under its servers
+        'rmbucket': st.tuples(st.just('rmbucket'),
+                              st.integers(0, 8)).map(list),
+        # macro: ... then work arrives and a new master starts
+        'rmbucketrestart': st.tuples(st.integers(0, 8), ops_app_placeholder,
+                                     st.booleans())
+        .map(lambda t: ['macro', [['rmbucket', t[0]], t[1], ['cycle']] +
+                        ([['down', t[0]], ['cycle']] if t[2] else []) +
+                        [['restart'], ['cycle']]]),
+        # macro: ... then a publication step is crashed
+        'rmbucketcrash': st.tuples(st.integers(0, 8), ops_app_placeholder)
+        .map(lambda t: ['macro', [['rmbucket', t[0]], t[1],
+                                  ['crashcycle']]]),
         'partsched': st.tuples(st.just('partsched'), st.integers(0, 3),
                                st.integers(0, 5)).map(list),
         # macro: a new master starts while an instance has placement records
@@ -562,7 +575,8 @@ E2_WEIGHTS = {
     'leasesched': 0, 'allocrepart': 0,
     'reboot': 1, 'resize': 1, 'shave': 1, 'repart': 1, 'reparent': 1,
     'state': 1, 'allocs': 1, 'idg': 1, 'rmidg': 1, 'bl': 1, 'blackout': 1,
-    'cellev': 1, 'cellrm': 0, 'running': 1, 'adv': 2, 'adv_ret': 1, 'tickreboots': 1,
+    'cellev': 1, 'cellrm': 0, 'rmbucket': 0, 'rmbucketrestart': 0,
+    'rmbucketcrash': 0, 'running': 1, 'adv': 2, 'adv_ret': 1, 'tickreboots': 1,
     'checkreboot': 1, 'integrity': 1, 'enq': 1, 'proc': 1, 'ev': 3,
     'sched': 3, 'cycle': 6, 'restart': 1,
 }
